@@ -87,6 +87,28 @@ theorem schedule_independent_uninitialised (k' : Cfg) (i : Nat) (tr : Trace) (σ
     (hcs : Coherent k' σ) (hct : Coherent k' τ) : readsOf i σ tr = solo τ (proj i tr) := by
   rw [← readsOf_map i tr σ, schedule_independent k' i (mapTrace tr) σ τ hc (fun c h => by simp [hlz] at h) hag hcs hct, proj_map, solo_map]
 
+/-- Frame rule. Thread `i` observes what it observes alone as soon as ITS OWN actions are clean and stay inside a
+    frame `F` of cells, and every other thread's action is clean or touches no cell of `F` — other goroutines may do
+    anything at all (unsynchronised writes, races among themselves) to memory this thread never looks at. -/
+theorem schedule_independent_frame (k : Cfg) (F : List Cell) (i : Nat) (tr : Trace) (σ τ : State)
+    (hmine : ∀ x ∈ tr, x.1 = i → actCell x.2 ∈ F)
+    (hclean : ∀ x ∈ tr, cleanAct k x.2 = true ∨ (x.1 ≠ i ∧ actCell x.2 ∉ F))
+    (hl : LazyInit k σ) (hag : AgreeOff k σ τ) (hcs : Coherent k σ) (hct : Coherent k τ) :
+    readsOf i σ tr = solo τ (proj i tr) := by
+  rw [readsOf_drop_junk F i tr σ σ (fun _ _ => rfl) hmine]
+  have hc : CleanTrace k (tr.filter (fun x => !junk F i x)) := by
+    intro x hx
+    simp only [List.mem_filter, Bool.not_eq_true'] at hx
+    rcases hclean x hx.1 with h | ⟨h1, h2⟩
+    · exact h
+    · have : junk F i x = true := by simp [junk, h1, h2]
+      rw [this] at hx; exact absurd hx.2 (by simp)
+  rw [schedule_independent k i _ σ τ hc hl hag hcs hct, proj_drop_junk]
+
+/-- the frame matters: a plain write by another thread INSIDE the frame changes what the thread reads
+    (`plain_write_schedule_dependent`), outside it does not -/
+example : readsOf 1 sigma0 [(0, .write 99 9), (1, .read 0), (0, .write 99 8)] = solo sigma0 [.read 0] := by decide
+
 /-- Validation does not write into the document: after any clean trace every non-cache cell holds what it
     held before. -/
 theorem document_untouched (k : Cfg) (σ : State) (tr : Trace) (hc : CleanTrace k tr) (hl : LazyInit k σ) :
